@@ -202,6 +202,9 @@ func (c *TermCtx) internStr(s string) int64 {
 	id := int64(len(c.strIDs)) + 1000000
 	c.strIDs[s] = id
 	c.strByID[id] = s
+	if c.strlenUsed {
+		c.axioms = append(c.axioms, fmt.Sprintf("(assert (= (strlen %d) %d))", id, len(s)))
+	}
 	return id
 }
 
@@ -552,4 +555,19 @@ func (r *Run) fpBinop(op token.Token, x, y value) value {
 		return symFP{tc.Raw(SFP, "("+f+" RNE $0 $1)", a, b)}
 	}
 	panic(unsupported{fmt.Sprintf("operator %s on exact-FP floats", op)})
+}
+
+// StrLen: the length of an atom string is an uninterpreted function of its identity, pinned to
+// the real length for every concrete string the run has met (so atoms may equal concrete strings).
+func (c *TermCtx) StrLen(t *Term) *Term {
+	if !c.strlenUsed {
+		c.strlenUsed = true
+		for s, id := range c.strIDs {
+			c.axioms = append(c.axioms, fmt.Sprintf("(assert (= (strlen %d) %d))", id, len(s)))
+		}
+	}
+	r := c.Raw(SInt, "(strlen $0)", t)
+	r.lo = big.NewInt(0)
+	r.hi = big.NewInt(1 << 30)
+	return r
 }
